@@ -27,6 +27,9 @@ CLAIMS = {
  'C13': dict(cat='proof', ref='DESIGN.md 7 (C13), 12',
    text="Kernel claim: the invariant of the descriptor list is a postcondition of every entry point under contract - createDimensionGroup only (re)creates the group of an index in 1..count+1 and touches no other; appendRangeDimension / RangeDimension::ticks hand only ascending ticks to the back end; appendSampledDimension / SampledDimension::samplingInterval only positive intervals, at index count+1, with the offset as given.",
    note=NOTE_COMMON + "Kernel only: the back end is a ghost record of what it was asked to store; read-back after reopen, alias redirection (HDF5 hard link), set and data-frame dimensions and deleteDimensions are not covered. std::is_sorted is an assumed contract."),
+ 'C14': dict(cat='proof', ref='DESIGN.md 7 (C14), 12',
+   text="Kernel claim, the Variant tagged union that carries every property value: each set(T) stores the value under the right type tag and releases a previously held string exactly when one was held; each get(T&) returns the stored value and rejects every other type with invalid_argument leaving the output untouched; assign_variant_from (copy constructor / operator= / swap path) copies tag and payload and never shares the string; supports_type is exactly the eight supported types; allocation failure throws without changing the Variant.",
+   note=NOTE_COMMON + "Kernel only: PropertyHDF5's dataset (resize/write/read), units, uncertainty and reopen are libhdf5 and not covered. The anonymous union is modelled as separate members (CBMC cost); string contents are inspected only for lengths < 16 (that job is labelled bounded and not counted); set(const char*) (strlen) is an assumed contract; malloc may fail and return NULL."),
  'C16': dict(cat='proof', ref='DESIGN.md 7 (C16), 12',
    text="Kernel claim: per function under contract, CBMC's built-in checks (bounds, pointer validity, pointer arithmetic, signed overflow, float-to-integer conversion, division by zero, shifts) are discharged under type-invariant-only preconditions, i.e. for every argument a C++ caller can form the function returns or raises. Covers the position-to-index functions for all doubles incl. NaN/inf/1e300 and any tick vector.",
    note=NOTE_COMMON + "Kernel only: absence of UB for sequences of API calls, handle lifetimes after delete/close and libhdf5 internals are not covered."),
@@ -44,7 +47,7 @@ NA = {
  'C20': "breadth-first search over std::list/std::function on HDF5-backed handles; not extractable without writing a model",
 }
 PENDING = {k: "check not built yet (planned kernel claim, DESIGN.md section 7)" for k in
-           ['C06', 'C14', 'C18', 'C19']}
+           ['C06', 'C18', 'C19']}
 def main():
     extra = json.load(open(os.path.join(ROOT, 'vlib', 'claims_extra.json'))) if os.path.exists(os.path.join(ROOT, 'vlib', 'claims_extra.json')) else {}
     checks = []
